@@ -94,7 +94,7 @@ contract(
 # -- token classes and their parse functions -----------------------------------------------------------------------------------
 classdef(Q + "QToken", fields={})
 classdef(Q + "QInteger", fields={"value": "int"})
-classdef(Q + "QVariable", fields={"name": "str", "value": "Optional[JV]"})
+classdef(Q + "QVariable", fields={"name": "str", "value": "JV"})     # (None is the JSON null)
 classdef(Q + "QString", fields={"value": "str"})
 classdef(Q + "QFunction", fields={"name": "str", "args": "List[QToken]"})
 classdef(Q + "QDict", fields={"value": "Dict[str,QToken]"})
@@ -140,3 +140,40 @@ contract(
     ghost_code=[dict(after="val_str = line[separator_i + 1", code="assert len(val_str) == 0 or val_str[len(val_str) - 1] == line[len(line) - 1]")],
     modifies=["alloc"], writes_fresh=TOKEN_FRESH, raises=["QueryParseException"],
 )
+
+
+# ---- C11 / C17: leaves of the abstract syntax tree mean what their text says ---------------------------------------------------
+# (the composite nodes - calls, lists, dicts - and the statement loop of query() are covered by the bounded reference evaluator)
+contract(Q + "QInteger.parse:value", params=NS, returns="QInteger", requires=["all_decimal(string) and len(string) > 0"],
+         ensures=["fresh(result)", "result.value == int(string)"], modifies=["alloc"], writes_fresh=TOKEN_FRESH, raises=[])
+contract(Q + "QString.parse:value", params=NS, returns="QString", requires=["len(string) > 0"],
+         # the text between the quotes, escaped quotes of the same kind unescaped
+         ensures=["fresh(result)", "result.value == string.replace('\\\\' + string[0], string[0])[1:-1]"],
+         modifies=["alloc"], writes_fresh=TOKEN_FRESH, raises=[])
+contract(Q + "QVariable.parse:value", params=NS, returns="QVariable", requires=[],
+         # a variable node carries its name and the value the name is bound to when the statement is parsed (None: not bound)
+         ensures=["fresh(result)", "result.name == string",
+                  "(string in namespace and same_value(result.value, namespace[string]))"
+                  " or (string not in namespace and result.value is None)",
+                  "namespace == old(namespace)"],
+         modifies=["alloc"], writes_fresh=TOKEN_FRESH, raises=[])
+
+INTERP = {"datastore": "Datastore", "namespace": "Dict[str,JV]"}
+contract(Q + "QInteger.interpret", params=dict(self="QInteger", **INTERP), returns="int", requires=[],
+         ensures=["result == self.value", "namespace == old(namespace)"], modifies=[], raises=[])
+contract(Q + "QString.interpret", params=dict(self="QString", **INTERP), returns="str", requires=[],
+         ensures=["result == self.value", "namespace == old(namespace)"], modifies=[], raises=[])
+contract(Q + "QVariable.interpret", params=dict(self="QVariable", **INTERP), returns="JV", requires=[],
+         # an unknown variable is an interpret error and changes nothing; a known one evaluates to the value the node carries,
+         # which is also (re)bound to the name - every other binding is as before
+         ensures=["old(self.name in namespace)", "same_value(result, self.value)",
+                  "self.name in namespace and same_value(namespace[self.name], self.value)",
+                  "all(k == self.name or (k in old(namespace) and same_value(namespace[k], old(namespace)[k])) for k in namespace)",
+                  "all(k in namespace for k in old(namespace))"],
+         exc_ensures={"QueryInterpretException": ["not old(self.name in namespace)", "namespace == old(namespace)"]},
+         modifies=["namespace"], raises=["QueryInterpretException"])
+contract(Q + "get_return", params={"namespace": "Dict[str,JV]"}, returns="JV", requires=[],
+         # the query's result is the binding of RETURN; a query that never assigns it is rejected with a query error
+         ensures=["old('RETURN' in namespace)", "same_value(result, namespace['RETURN'])", "namespace == old(namespace)"],
+         exc_ensures={"QueryParseException": ["'RETURN' not in namespace", "namespace == old(namespace)"]},
+         modifies=[], raises=["QueryParseException"])
